@@ -247,17 +247,20 @@ def gen_site(rng, boom_ok=False):
 
 def _gen_value(rng, name, allow_bad):
     if allow_bad and rng.random() < 0.18:
-        return rng.choice([["list", [1, 2]], ["tuple", [3, 4]], ["dict", [["a", 1]]], ["obj"]])
+        return rng.choice([["list", [1, 2]], ["tuple", [3, 4]], ["dict", [["a", 1]]], ["obj"],
+                           ["none"]])
     if name == "G2":  # only ever compared with ==/!=, so any transportable type is fine
         r = rng.random()
         if r < 0.7:
             return ["str", rng.choice(["tagA", "tagB", "it's", "x"])]
-        return ["bool", rng.choice([True, False])] if r < 0.85 else ["int", rng.choice([0, 7])]
+        if r < 0.8:
+            return ["bool", rng.choice([True, False])]
+        return ["int", rng.choice([0, 7])] if r < 0.9 else ["bytes", rng.choice(["tagA", "b"])]
     # numeric names stay numeric: a str/bool in a conditional branch is a *designed* refusal
     # of the type follower (C10), not a capture failure
     if rng.random() < 0.72:
-        return ["int", rng.choice([0, 1, 2, 5, 17, 40, -3, 1000003])]
-    return ["float", rng.choice([0.5, 2.5, -1.25, 40.0])]
+        return ["int", rng.choice([0, 1, 2, 5, 17, 40, -3, 1000003, 10 ** 30, -1])]
+    return ["float", rng.choice([0.5, 2.5, -1.25, 40.0, -0.0, 1e400, 1e-300])]
 
 
 def _gen_plan(rng, faults, sync):
@@ -439,6 +442,19 @@ def strip_empty_md(n):
     ):
         return strip_empty_md(n.args[0])
     return type(n)(**{f: strip_empty_md(getattr(n, f)) for f in n._fields if hasattr(n, f)})
+
+
+def free_names(node, bound=frozenset()):
+    "Names read in an expression that no enclosing lambda of the expression binds."
+    if isinstance(node, ast.Lambda):
+        inner = bound | {a.arg for a in node.args.args}
+        return free_names(node.body, inner)
+    if isinstance(node, ast.Name):
+        return set() if node.id in bound else {node.id}
+    out = set()
+    for ch in ast.iter_child_nodes(node):
+        out |= free_names(ch, bound)
+    return out
 
 
 def chain_lambdas(a):
@@ -860,6 +876,17 @@ class Forest:
         if self.site_calls[k] > 1 and self.rebinds_since.get(k):
             self.stat("probe_site_reinvoked_after_rebinding")
         self.rebinds_since[k] = False
+        nones = c.none_bound(k)
+        if nones and not blocked:
+            # None: the library refuses it (ValueError) - emitting a correct literal would
+            # also satisfy the property; what it must not do is emit a malformed query
+            self.stat("site_none_bound_calls")
+            if ex is not None:
+                if "C04" in self.oracles and not isinstance(ex, ValueError):
+                    raise Violation("C04/gate", {"site": site["lam"], "none_bound": nones,
+                                                 "got": type(ex).__name__})
+                self.ev("site_none_refused", k)
+                return
         if blocked:
             self.stat("site_blocked_calls")
             if "C04" in self.oracles:
@@ -894,8 +921,12 @@ class Forest:
                      "python": repr(refs[bad])[:120], "query": repr(got[bad])[:120],
                      "bindings": {n: c.value[n] for n in site["free"]},
                      "shadow": site.get("shadow")})
+            loose = free_names(lam)
+            if loose:
+                raise Violation("C04/scope", {"site": site["lam"], "emitted": _safe_unparse(lam),
+                                              "free_names_left_in_query": sorted(loose)})
             for n in ast.walk(lam):
-                if isinstance(n, ast.Constant) and not isinstance(
+                if isinstance(n, ast.Constant) and n.value is not None and not isinstance(
                         n.value, (str, int, float, bool, complex, bytes)):
                     raise Violation("C04/gate", {"site": site["lam"],
                                                  "constant": repr(n.value)[:80]})
